@@ -4,6 +4,11 @@ manifest is always valid)."""
 import json, sys
 
 CHECKS = {
+ "C04": dict(
+   text="Structural necessary conditions of a complete, crash-safe save, decided on every path: the trie writes its store and feeds its change collector only in insertNode/deleteNode, every (re)created node is collected unless its hash is unchanged, each node is stored under its own hash; a save is exactly one MultiPutNode batch (keys[i] = hash of nodes[i] = copy of the change's New node) before any delete, deletes only under includeDeletes, arguments passed through unchanged; the persistent store reaches RocksDB only through one WriteBatch written once after the loop; plus FRESH-node (no in-place write to shared node bytes).",
+   note="Does not decide completeness of the change set for every history (rests on C01's map semantics) nor RocksDB's own atomicity (batches are the atomic unit by the property's quantifier). The RocksDB binding is analysed as a named API (it cannot be compiled here).",
+   technique="who-may-call/effect confinement over the repo call graph, path-sensitive must-pass-through, index/key agreement on go/ssa",
+   ref="DESIGN.md section 5 C04"),
  "C03": dict(
    text="Layering, guard and copy discipline that child-trie isolation rests on, decided on every path: the layered store never writes its parent level (deletes only under PropagateDeletes); a merge replays changes only after the start-root comparison succeeded and only from a direct child; the memory store keeps CloneNode() copies under the given key; and no trie operation writes in place to node memory that derives from the store, the node cache, a pending change or a caller (interprocedural source-label dataflow).",
    note="Does not decide equality of parent and child views after arbitrary histories. Constructors are modelled as returning fresh objects (slices handed to them are assumed not written later through the new node); aliasing is label-based, not a points-to analysis. One named exception: re-stamping the origin of replayed child nodes in mergeChanges (idempotent at equal versions).",
